@@ -1,0 +1,5 @@
+//go:build !verif
+
+package pilosa
+
+func verifLifecycleConfirmDown(uri URI) (down, handled bool) { return false, false }
